@@ -1,9 +1,591 @@
 package gosym
 
+// reflect modelled on the engine's typed values (DESIGN 4.2).
+
 import (
+	"fmt"
 	"go/token"
+	"go/types"
+	"reflect"
+
+	"golang.org/x/tools/go/ssa"
 )
 
+func (e *Engine) rtypeIface(t types.Type) Value {
+	return IfaceV{T: e.rtypeMarker(), V: RType{T: t}}
+}
+
+var rtypeMarkerT types.Type
+
+func (e *Engine) rtypeMarker() types.Type {
+	if rtypeMarkerT == nil {
+		if p := e.prog.ImportedPackage("reflect"); p != nil {
+			if o := p.Pkg.Scope().Lookup("rtype"); o != nil {
+				rtypeMarkerT = types.NewPointer(o.Type())
+			}
+		}
+		if rtypeMarkerT == nil {
+			rtypeMarkerT = types.Typ[types.UnsafePointer]
+		}
+	}
+	return rtypeMarkerT
+}
+
+func kindOf(t types.Type) reflect.Kind {
+	switch u := t.Underlying().(type) {
+	case *types.Basic:
+		switch u.Kind() {
+		case types.Bool:
+			return reflect.Bool
+		case types.Int:
+			return reflect.Int
+		case types.Int8:
+			return reflect.Int8
+		case types.Int16:
+			return reflect.Int16
+		case types.Int32:
+			return reflect.Int32
+		case types.Int64:
+			return reflect.Int64
+		case types.Uint:
+			return reflect.Uint
+		case types.Uint8:
+			return reflect.Uint8
+		case types.Uint16:
+			return reflect.Uint16
+		case types.Uint32:
+			return reflect.Uint32
+		case types.Uint64:
+			return reflect.Uint64
+		case types.Uintptr:
+			return reflect.Uintptr
+		case types.Float32:
+			return reflect.Float32
+		case types.Float64:
+			return reflect.Float64
+		case types.String:
+			return reflect.String
+		case types.UnsafePointer:
+			return reflect.UnsafePointer
+		}
+	case *types.Array:
+		return reflect.Array
+	case *types.Chan:
+		return reflect.Chan
+	case *types.Signature:
+		return reflect.Func
+	case *types.Interface:
+		return reflect.Interface
+	case *types.Map:
+		return reflect.Map
+	case *types.Pointer:
+		return reflect.Ptr
+	case *types.Slice:
+		return reflect.Slice
+	case *types.Struct:
+		return reflect.Struct
+	}
+	return reflect.Invalid
+}
+
+func (e *Engine) rvGet(st *State, v RVal) Value {
+	if v.Ref != nil {
+		return e.load(st, *v.Ref)
+	}
+	return v.V
+}
+
+func (e *Engine) reflectPanic(st *State, msg string, pos token.Pos) []exit {
+	e.reportPanic(st, e.tc.True, "reflect: "+msg, pos)
+	return []exit{{st: st, kind: exitPanic, pmsg: "reflect: " + msg}}
+}
+
+type boundMethod struct {
+	Fn   *ssa.Function
+	Recv Value
+}
+
+func (e *Engine) rvalsSlice(st *State, vs []Value) Value {
+	return e.newSlice(st, vs, len(vs), RVal{})
+}
+
+func (e *Engine) structFieldValue(st *State, t *types.Struct, i int) Value {
+	f := t.Field(i)
+	pkgPath := ""
+	if !f.Exported() && f.Pkg() != nil {
+		pkgPath = f.Pkg().Path()
+	}
+	idx := e.newSlice(st, []Value{e.tc.BV(uint64(i), 64)}, 1, e.tc.BV(0, 64))
+	// reflect.StructField{Name, PkgPath, Type, Tag, Offset, Index, Anonymous}
+	return StructV{F: []Value{
+		e.strConst(f.Name()),
+		e.strConst(pkgPath),
+		e.rtypeIface(f.Type()),
+		e.strConst(t.Tag(i)),
+		e.tc.BV(0, 64),
+		idx,
+		e.tc.Bool(f.Embedded()),
+	}}
+}
+
 func (e *Engine) rtypeMethod(st *State, fr *Frame, t RType, name string, args []Value, pos token.Pos) []exit {
+	c := e.tc
+	switch name {
+	case "Kind":
+		return retExit(st, c.BV(uint64(kindOf(t.T)), 64))
+	case "Elem":
+		switch u := t.T.Underlying().(type) {
+		case *types.Pointer:
+			return retExit(st, e.rtypeIface(u.Elem()))
+		case *types.Slice:
+			return retExit(st, e.rtypeIface(u.Elem()))
+		case *types.Array:
+			return retExit(st, e.rtypeIface(u.Elem()))
+		case *types.Map:
+			return retExit(st, e.rtypeIface(u.Elem()))
+		}
+		return e.reflectPanic(st, "Elem of invalid type "+t.T.String(), pos)
+	case "NumField":
+		s, ok := t.T.Underlying().(*types.Struct)
+		if !ok {
+			return e.reflectPanic(st, "NumField of non-struct type", pos)
+		}
+		return retExit(st, c.BV(uint64(s.NumFields()), 64))
+	case "Field":
+		s, ok := t.T.Underlying().(*types.Struct)
+		if !ok {
+			return e.reflectPanic(st, "Field of non-struct type", pos)
+		}
+		i := concreteInt(args[0], "reflect.Type.Field index")
+		if i < 0 || i >= s.NumFields() {
+			return e.reflectPanic(st, "Field index out of bounds", pos)
+		}
+		return retExit(st, e.structFieldValue(st, s, i))
+	case "String", "Name":
+		return retExit(st, e.strConst(types.TypeString(t.T, func(p *types.Package) string { return p.Name() })))
+	}
 	panic(unsupported("reflect.Type." + name))
+}
+
+func rv(args []Value) RVal {
+	v, ok := args[0].(RVal)
+	if !ok {
+		panic(unsupported(fmt.Sprintf("reflect.Value receiver is %T", args[0])))
+	}
+	return v
+}
+
+func init() {
+	type sf = func(e *Engine, st *State, fr *Frame, fn *ssa.Function, args []Value, pos token.Pos) []exit
+	stubs["reflect.TypeOf"] = func(e *Engine, st *State, fr *Frame, fn *ssa.Function, args []Value, pos token.Pos) []exit {
+		iv := args[0].(IfaceV)
+		if iv.T == nil {
+			return retExit(st, IfaceV{})
+		}
+		return retExit(st, e.rtypeIface(iv.T))
+	}
+	stubs["reflect.ValueOf"] = func(e *Engine, st *State, fr *Frame, fn *ssa.Function, args []Value, pos token.Pos) []exit {
+		iv := args[0].(IfaceV)
+		if iv.T == nil {
+			return retExit(st, RVal{})
+		}
+		return retExit(st, RVal{T: iv.T, V: iv.V, Valid: true})
+	}
+	elem := func(e *Engine, st *State, v RVal, pos token.Pos) ([]exit, RVal, bool) {
+		switch kindOf(v.T) {
+		case reflect.Ptr:
+			p, ok := e.rvGet(st, v).(PtrV)
+			if !ok {
+				panic(unsupported(fmt.Sprintf("reflect Elem of pointer represented as %T", e.rvGet(st, v))))
+			}
+			if p.IsNil() {
+				return nil, RVal{}, true
+			}
+			et := v.T.Underlying().(*types.Pointer).Elem()
+			pp := p
+			return nil, RVal{T: et, Ref: &pp, Valid: true, RO: v.RO}, true
+		case reflect.Interface:
+			iv := e.rvGet(st, v).(IfaceV)
+			if iv.T == nil {
+				return nil, RVal{}, true
+			}
+			return nil, RVal{T: iv.T, V: iv.V, Valid: true, RO: v.RO}, true
+		}
+		return e.reflectPanic(st, "call of reflect.Value.Elem on "+kindOf(v.T).String()+" Value", pos), RVal{}, false
+	}
+	stubs["reflect.Indirect"] = func(e *Engine, st *State, fr *Frame, fn *ssa.Function, args []Value, pos token.Pos) []exit {
+		v := rv(args)
+		if !v.Valid || kindOf(v.T) != reflect.Ptr {
+			return retExit(st, v)
+		}
+		ex, r, ok := elem(e, st, v, pos)
+		if !ok {
+			return ex
+		}
+		return retExit(st, r)
+	}
+	stubs["(reflect.Value).Elem"] = func(e *Engine, st *State, fr *Frame, fn *ssa.Function, args []Value, pos token.Pos) []exit {
+		v := rv(args)
+		if !v.Valid {
+			return e.reflectPanic(st, "call of reflect.Value.Elem on zero Value", pos)
+		}
+		ex, r, ok := elem(e, st, v, pos)
+		if !ok {
+			return ex
+		}
+		return retExit(st, r)
+	}
+	stubs["reflect.New"] = func(e *Engine, st *State, fr *Frame, fn *ssa.Function, args []Value, pos token.Pos) []exit {
+		t := args[0].(IfaceV).V.(RType).T
+		id := e.alloc(st, e.zero(t))
+		return retExit(st, RVal{T: types.NewPointer(t), V: PtrV{Obj: id}, Valid: true})
+	}
+	stubs["reflect.SliceOf"] = func(e *Engine, st *State, fr *Frame, fn *ssa.Function, args []Value, pos token.Pos) []exit {
+		t := args[0].(IfaceV).V.(RType).T
+		return retExit(st, e.rtypeIface(types.NewSlice(t)))
+	}
+	stubs["reflect.MakeSlice"] = func(e *Engine, st *State, fr *Frame, fn *ssa.Function, args []Value, pos token.Pos) []exit {
+		t := args[0].(IfaceV).V.(RType).T
+		n, cp := concreteInt(args[1], "MakeSlice len"), concreteInt(args[2], "MakeSlice cap")
+		et := t.Underlying().(*types.Slice).Elem()
+		el := make([]Value, n)
+		z := e.zero(et)
+		for i := range el {
+			el[i] = z
+		}
+		return retExit(st, RVal{T: t, V: e.newSlice(st, el, cp, z), Valid: true})
+	}
+	stubs["reflect.Append"] = func(e *Engine, st *State, fr *Frame, fn *ssa.Function, args []Value, pos token.Pos) []exit {
+		s := rv(args)
+		more := e.variadic(st, args[1])
+		var add []Value
+		for _, m := range more {
+			add = append(add, e.rvGet(st, m.(RVal)))
+		}
+		sl := e.rvGet(st, s).(SliceV)
+		et := s.T.Underlying().(*types.Slice).Elem()
+		tmp := e.newSlice(st, add, len(add), e.zero(et))
+		res := e.appendOp(st, sl, tmp, nil)
+		return retExit(st, RVal{T: s.T, V: res, Valid: true})
+	}
+	stubs["(reflect.Value).Kind"] = func(e *Engine, st *State, fr *Frame, fn *ssa.Function, args []Value, pos token.Pos) []exit {
+		v := rv(args)
+		if !v.Valid {
+			return retExit(st, e.tc.BV(0, 64))
+		}
+		return retExit(st, e.tc.BV(uint64(kindOf(v.T)), 64))
+	}
+	stubs["(reflect.Value).IsValid"] = func(e *Engine, st *State, fr *Frame, fn *ssa.Function, args []Value, pos token.Pos) []exit {
+		return retExit(st, e.tc.Bool(rv(args).Valid))
+	}
+	stubs["(reflect.Value).Type"] = func(e *Engine, st *State, fr *Frame, fn *ssa.Function, args []Value, pos token.Pos) []exit {
+		v := rv(args)
+		if !v.Valid {
+			return e.reflectPanic(st, "call of reflect.Value.Type on zero Value", pos)
+		}
+		return retExit(st, e.rtypeIface(v.T))
+	}
+	stubs["(reflect.Value).NumField"] = func(e *Engine, st *State, fr *Frame, fn *ssa.Function, args []Value, pos token.Pos) []exit {
+		v := rv(args)
+		s, ok := v.T.Underlying().(*types.Struct)
+		if !v.Valid || !ok {
+			return e.reflectPanic(st, "call of reflect.Value.NumField on non-struct Value", pos)
+		}
+		return retExit(st, e.tc.BV(uint64(s.NumFields()), 64))
+	}
+	stubs["(reflect.Value).Field"] = func(e *Engine, st *State, fr *Frame, fn *ssa.Function, args []Value, pos token.Pos) []exit {
+		v := rv(args)
+		s, ok := v.T.Underlying().(*types.Struct)
+		if !v.Valid || !ok {
+			return e.reflectPanic(st, "call of reflect.Value.Field on non-struct Value", pos)
+		}
+		i := concreteInt(args[1], "reflect.Value.Field index")
+		if i < 0 || i >= s.NumFields() {
+			return e.reflectPanic(st, "Field index out of range", pos)
+		}
+		f := s.Field(i)
+		ro := v.RO || !f.Exported()
+		if e.isTimeType(v.T) {
+			panic(unsupported("reflection into time.Time"))
+		}
+		if v.Ref != nil {
+			p := PtrV{Obj: v.Ref.Obj, Path: appendPath(v.Ref.Path, PathElem{I: i})}
+			return retExit(st, RVal{T: f.Type(), Ref: &p, Valid: true, RO: ro})
+		}
+		return retExit(st, RVal{T: f.Type(), V: v.V.(StructV).F[i], Valid: true, RO: ro})
+	}
+	stubs["(reflect.Value).CanSet"] = func(e *Engine, st *State, fr *Frame, fn *ssa.Function, args []Value, pos token.Pos) []exit {
+		v := rv(args)
+		return retExit(st, e.tc.Bool(v.Valid && v.Ref != nil && !v.RO))
+	}
+	stubs["(reflect.Value).CanAddr"] = func(e *Engine, st *State, fr *Frame, fn *ssa.Function, args []Value, pos token.Pos) []exit {
+		v := rv(args)
+		return retExit(st, e.tc.Bool(v.Valid && v.Ref != nil))
+	}
+	stubs["(reflect.Value).CanInterface"] = func(e *Engine, st *State, fr *Frame, fn *ssa.Function, args []Value, pos token.Pos) []exit {
+		v := rv(args)
+		return retExit(st, e.tc.Bool(v.Valid && !v.RO))
+	}
+	stubs["(reflect.Value).Addr"] = func(e *Engine, st *State, fr *Frame, fn *ssa.Function, args []Value, pos token.Pos) []exit {
+		v := rv(args)
+		if !v.Valid || v.Ref == nil {
+			return e.reflectPanic(st, "reflect.Value.Addr of unaddressable value", pos)
+		}
+		return retExit(st, RVal{T: types.NewPointer(v.T), V: *v.Ref, Valid: true, RO: v.RO})
+	}
+	stubs["(reflect.Value).Interface"] = func(e *Engine, st *State, fr *Frame, fn *ssa.Function, args []Value, pos token.Pos) []exit {
+		v := rv(args)
+		if !v.Valid {
+			return e.reflectPanic(st, "call of reflect.Value.Interface on zero Value", pos)
+		}
+		if v.RO {
+			return e.reflectPanic(st, "reflect.Value.Interface: cannot return value obtained from unexported field or method", pos)
+		}
+		val := e.rvGet(st, v)
+		if _, isI := v.T.Underlying().(*types.Interface); isI {
+			return retExit(st, val)
+		}
+		return retExit(st, IfaceV{T: v.T, V: val})
+	}
+	stubs["(reflect.Value).IsNil"] = func(e *Engine, st *State, fr *Frame, fn *ssa.Function, args []Value, pos token.Pos) []exit {
+		v := rv(args)
+		if !v.Valid {
+			return e.reflectPanic(st, "call of reflect.Value.IsNil on zero Value", pos)
+		}
+		switch x := e.rvGet(st, v).(type) {
+		case PtrV:
+			return retExit(st, e.tc.Bool(x.IsNil()))
+		case LocV:
+			return retExit(st, e.tc.Bool(x.Kind == 0))
+		case SliceV:
+			return retExit(st, e.tc.Bool(x.Nil))
+		case MapV:
+			return retExit(st, e.tc.Bool(x.Obj == 0))
+		case IfaceV:
+			return retExit(st, e.tc.Bool(x.T == nil))
+		case FuncV:
+			return retExit(st, e.tc.Bool(x.IsNil()))
+		case ChanV:
+			return retExit(st, e.tc.Bool(x.Obj == 0))
+		}
+		return e.reflectPanic(st, "call of reflect.Value.IsNil on "+kindOf(v.T).String()+" Value", pos)
+	}
+	stubs["(reflect.Value).IsZero"] = func(e *Engine, st *State, fr *Frame, fn *ssa.Function, args []Value, pos token.Pos) []exit {
+		v := rv(args)
+		val := e.rvGet(st, v)
+		return retExit(st, e.eqVal(val, e.zero(v.T)))
+	}
+	stubs["(reflect.Value).Uint"] = func(e *Engine, st *State, fr *Frame, fn *ssa.Function, args []Value, pos token.Pos) []exit {
+		v := rv(args)
+		k := kindOf(v.T)
+		if !v.Valid || k < reflect.Uint || k > reflect.Uintptr {
+			return e.reflectPanic(st, "call of reflect.Value.Uint on "+k.String()+" Value", pos)
+		}
+		return retExit(st, e.tc.Resize(e.rvGet(st, v).(*Term), 64, false))
+	}
+	stubs["(reflect.Value).Int"] = func(e *Engine, st *State, fr *Frame, fn *ssa.Function, args []Value, pos token.Pos) []exit {
+		v := rv(args)
+		k := kindOf(v.T)
+		if !v.Valid || k < reflect.Int || k > reflect.Int64 {
+			return e.reflectPanic(st, "call of reflect.Value.Int on "+k.String()+" Value", pos)
+		}
+		return retExit(st, e.tc.Resize(e.rvGet(st, v).(*Term), 64, true))
+	}
+	stubs["(reflect.Value).Bool"] = func(e *Engine, st *State, fr *Frame, fn *ssa.Function, args []Value, pos token.Pos) []exit {
+		v := rv(args)
+		if !v.Valid || kindOf(v.T) != reflect.Bool {
+			return e.reflectPanic(st, "call of reflect.Value.Bool on non-bool Value", pos)
+		}
+		return retExit(st, e.rvGet(st, v))
+	}
+	stubs["(reflect.Value).Len"] = func(e *Engine, st *State, fr *Frame, fn *ssa.Function, args []Value, pos token.Pos) []exit {
+		v := rv(args)
+		switch x := e.rvGet(st, v).(type) {
+		case SliceV:
+			return retExit(st, x.Len)
+		case StrV:
+			return retExit(st, e.tc.BV(uint64(len(x.B)), 64))
+		case ArrayV:
+			return retExit(st, e.tc.BV(uint64(len(x.E)), 64))
+		case MapV:
+			return retExit(st, e.mapLen(st, x))
+		}
+		return e.reflectPanic(st, "call of reflect.Value.Len on "+kindOf(v.T).String()+" Value", pos)
+	}
+	stubs["(reflect.Value).Bytes"] = func(e *Engine, st *State, fr *Frame, fn *ssa.Function, args []Value, pos token.Pos) []exit {
+		v := rv(args)
+		if !v.Valid {
+			return e.reflectPanic(st, "call of reflect.Value.Bytes on zero Value", pos)
+		}
+		sl, ok := e.rvGet(st, v).(SliceV)
+		if !ok {
+			return e.reflectPanic(st, "reflect.Value.Bytes of non-byte slice", pos)
+		}
+		if u, ok := v.T.Underlying().(*types.Slice); !ok || kindOf(u.Elem()) != reflect.Uint8 {
+			return e.reflectPanic(st, "reflect.Value.Bytes of non-byte slice", pos)
+		}
+		return retExit(st, sl)
+	}
+	setCheck := func(e *Engine, st *State, v RVal, what string, pos token.Pos) []exit {
+		if !v.Valid {
+			return e.reflectPanic(st, "call of reflect.Value."+what+" on zero Value", pos)
+		}
+		if v.Ref == nil {
+			return e.reflectPanic(st, "reflect.Value."+what+" using unaddressable value", pos)
+		}
+		if v.RO {
+			return e.reflectPanic(st, "reflect.Value."+what+" using value obtained using unexported field", pos)
+		}
+		return nil
+	}
+	stubs["(reflect.Value).Set"] = func(e *Engine, st *State, fr *Frame, fn *ssa.Function, args []Value, pos token.Pos) []exit {
+		v := rv(args)
+		x := args[1].(RVal)
+		if ex := setCheck(e, st, v, "Set", pos); ex != nil {
+			return ex
+		}
+		if !x.Valid {
+			return e.reflectPanic(st, "call of reflect.Value.Set on zero Value", pos)
+		}
+		if x.RO {
+			return e.reflectPanic(st, "reflect.Value.Set using value obtained using unexported field", pos)
+		}
+		val := e.rvGet(st, x)
+		if _, isI := v.T.Underlying().(*types.Interface); isI {
+			if _, srcI := x.T.Underlying().(*types.Interface); !srcI {
+				val = IfaceV{T: x.T, V: val}
+			}
+		} else if !types.AssignableTo(x.T, v.T) {
+			return e.reflectPanic(st, fmt.Sprintf("reflect.Set: value of type %s is not assignable to type %s", x.T, v.T), pos)
+		}
+		e.store(st, *v.Ref, val)
+		return retExit(st, nil)
+	}
+	stubs["(reflect.Value).SetUint"] = func(e *Engine, st *State, fr *Frame, fn *ssa.Function, args []Value, pos token.Pos) []exit {
+		v := rv(args)
+		if ex := setCheck(e, st, v, "SetUint", pos); ex != nil {
+			return ex
+		}
+		k := kindOf(v.T)
+		if k < reflect.Uint || k > reflect.Uintptr {
+			return e.reflectPanic(st, "reflect.Value.SetUint of "+k.String()+" Value", pos)
+		}
+		w, _ := intWidth(v.T.Underlying().(*types.Basic))
+		e.store(st, *v.Ref, e.tc.Resize(args[1].(*Term), w, false))
+		return retExit(st, nil)
+	}
+	stubs["(reflect.Value).SetInt"] = func(e *Engine, st *State, fr *Frame, fn *ssa.Function, args []Value, pos token.Pos) []exit {
+		v := rv(args)
+		if ex := setCheck(e, st, v, "SetInt", pos); ex != nil {
+			return ex
+		}
+		k := kindOf(v.T)
+		if k < reflect.Int || k > reflect.Int64 {
+			return e.reflectPanic(st, "reflect.Value.SetInt of "+k.String()+" Value", pos)
+		}
+		w, _ := intWidth(v.T.Underlying().(*types.Basic))
+		e.store(st, *v.Ref, e.tc.Resize(args[1].(*Term), w, true))
+		return retExit(st, nil)
+	}
+	stubs["(reflect.Value).SetBool"] = func(e *Engine, st *State, fr *Frame, fn *ssa.Function, args []Value, pos token.Pos) []exit {
+		v := rv(args)
+		if ex := setCheck(e, st, v, "SetBool", pos); ex != nil {
+			return ex
+		}
+		if kindOf(v.T) != reflect.Bool {
+			return e.reflectPanic(st, "reflect.Value.SetBool of non-bool Value", pos)
+		}
+		e.store(st, *v.Ref, args[1])
+		return retExit(st, nil)
+	}
+	stubs["(reflect.Value).SetBytes"] = func(e *Engine, st *State, fr *Frame, fn *ssa.Function, args []Value, pos token.Pos) []exit {
+		v := rv(args)
+		if ex := setCheck(e, st, v, "SetBytes", pos); ex != nil {
+			return ex
+		}
+		if u, ok := v.T.Underlying().(*types.Slice); !ok || kindOf(u.Elem()) != reflect.Uint8 {
+			return e.reflectPanic(st, "reflect.Value.SetBytes of non-byte slice", pos)
+		}
+		e.store(st, *v.Ref, args[1])
+		return retExit(st, nil)
+	}
+	stubs["(reflect.Value).SetString"] = func(e *Engine, st *State, fr *Frame, fn *ssa.Function, args []Value, pos token.Pos) []exit {
+		v := rv(args)
+		if ex := setCheck(e, st, v, "SetString", pos); ex != nil {
+			return ex
+		}
+		e.store(st, *v.Ref, args[1])
+		return retExit(st, nil)
+	}
+	stubs["(reflect.Value).MethodByName"] = func(e *Engine, st *State, fr *Frame, fn *ssa.Function, args []Value, pos token.Pos) []exit {
+		v := rv(args)
+		name := concreteString(args[1], "MethodByName")
+		if !v.Valid {
+			return e.reflectPanic(st, "call of reflect.Value.MethodByName on zero Value", pos)
+		}
+		ms := e.prog.MethodSets.MethodSet(v.T)
+		sel := ms.Lookup(nil, name)
+		if sel == nil || !token.IsExported(name) {
+			return retExit(st, RVal{})
+		}
+		m := e.prog.MethodValue(sel)
+		if m == nil {
+			panic(unsupported("MethodByName on interface type"))
+		}
+		return retExit(st, RVal{T: sel.Type(), V: boundMethod{Fn: m, Recv: e.rvGet(st, v)}, Valid: true})
+	}
+	stubs["(reflect.Value).Call"] = func(e *Engine, st *State, fr *Frame, fn *ssa.Function, args []Value, pos token.Pos) []exit {
+		v := rv(args)
+		if !v.Valid {
+			return e.reflectPanic(st, "call of reflect.Value.Call on zero Value", pos)
+		}
+		bm, ok := v.V.(boundMethod)
+		if !ok {
+			panic(unsupported("reflect.Value.Call on a non-method value"))
+		}
+		in := e.variadic(st, args[1])
+		call := []Value{bm.Recv}
+		for _, a := range in {
+			call = append(call, e.rvGet(st, a.(RVal)))
+		}
+		res := e.callFunction(st, fr, bm.Fn, call, nil, pos)
+		sig := bm.Fn.Signature.Results()
+		var out []exit
+		for _, r := range res {
+			if r.kind == exitPanic {
+				out = append(out, r)
+				continue
+			}
+			var vals []Value
+			switch sig.Len() {
+			case 0:
+			case 1:
+				vals = []Value{RVal{T: sig.At(0).Type(), V: r.val, Valid: true}}
+			default:
+				for i, x := range r.val.(TupleV) {
+					vals = append(vals, RVal{T: sig.At(i).Type(), V: x, Valid: true})
+				}
+			}
+			out = append(out, exit{st: r.st, kind: exitReturn, val: e.rvalsSlice(r.st, vals)})
+		}
+		return out
+	}
+	stubs["(reflect.StructTag).Get"] = func(e *Engine, st *State, fr *Frame, fn *ssa.Function, args []Value, pos token.Pos) []exit {
+		tag := concreteString(args[0], "StructTag")
+		key := concreteString(args[1], "StructTag key")
+		return retExit(st, e.strConst(reflect.StructTag(tag).Get(key)))
+	}
+	stubs["(reflect.StructTag).Lookup"] = func(e *Engine, st *State, fr *Frame, fn *ssa.Function, args []Value, pos token.Pos) []exit {
+		tag := concreteString(args[0], "StructTag")
+		key := concreteString(args[1], "StructTag key")
+		v, ok := reflect.StructTag(tag).Lookup(key)
+		return retExit(st, TupleV{e.strConst(v), e.tc.Bool(ok)})
+	}
+	stubs["(reflect.Kind).String"] = func(e *Engine, st *State, fr *Frame, fn *ssa.Function, args []Value, pos token.Pos) []exit {
+		if t, ok := isConstTerm(args[0]); ok {
+			return retExit(st, e.strConst(reflect.Kind(t.C).String()))
+		}
+		return retExit(st, StrV{Opaque: true, Note: "kind"})
+	}
+	_ = sf(nil)
 }
